@@ -166,3 +166,13 @@ package route
 //@   ensures a.Select(b) > 0 && b.Select(c) >= 0 ==> a.Select(c) > 0
 //@   ensures a.Select(b) >= 0 && b.Select(c) > 0 ==> a.Select(c) > 0
 //@   ensures a.Select(b) == 0 ==> a.Select(c) == b.Select(c)
+
+// Property C11: the attribute hash that keys path identifiers. String formatting
+// and SHA-256 are outside the subset; the hash is taken to be a function of the
+// path object (it does not change while the object is not written).
+//@ contract (*BGPPath).ComputeHash
+//@   props C11
+//@   trusted formatting and SHA-256 are not modelled: the hash is an uninterpreted function of the path object
+//@   requires b != nil
+//@   ensures result == verif_uf_str("ComputeHash", b)
+//@   modifies nothing
